@@ -1,4 +1,156 @@
+(* Properties/C04.v — C04: "Panics occur exactly where the primitive integers panic, per build mode".
+   `dbg` is cfg(debug_assertions).  Each statement says exactly when the model of the operator /
+   method returns Panic, and what it returns otherwise.  Corollaries of the flag-exactness theorems
+   of C01, C02, C05, C06, C08 and of the operator layer Model/Ops.v (amount conversion of the twelve
+   primitive shift-amount types).  Division / remainder (zero divisor, MIN / -1) are stated in
+   Properties/C03.v. *)
 From Bnum Require Import Base Prim.
-Theorem C04_placeholder : forall w n ds, 0 <= w -> wf w n ds -> 0 <= uval w ds < Mod w n.
-Proof. exact uval_bounds. Qed.
-Print Assumptions C04_placeholder.
+From Bnum.Model Require Import Digit Core Shift AddSub Mul Div Bits Pow Ops.
+From Bnum.Proofs Require Import AddSub Mul Shift BitsLemmas Bits PowDeps Pow Ilog Discharge Panics.
+
+(* + and - : panic in debug builds exactly when the exact result is unrepresentable; wrap otherwise *)
+Theorem C04_U_add : forall dbg w n a b, 0 < w -> wf w n a -> wf w n b ->
+  (U_add dbg w a b = Panic <-> dbg = true /\ Mod w n <= uval w a + uval w b) /\
+  (dbg = false -> U_add dbg w a b = Ret (U_wrapping_add w a b)) /\
+  (uval w a + uval w b < Mod w n -> exists r, U_add dbg w a b = Ret r /\ wf w n r /\ uval w r = uval w a + uval w b).
+Proof. exact U_add_panics. Qed.
+Print Assumptions C04_U_add.
+
+Theorem C04_U_sub : forall dbg w n a b, 0 < w -> wf w n a -> wf w n b ->
+  (U_sub dbg w a b = Panic <-> dbg = true /\ uval w a < uval w b) /\
+  (dbg = false -> U_sub dbg w a b = Ret (U_wrapping_sub w a b)) /\
+  (uval w b <= uval w a -> exists r, U_sub dbg w a b = Ret r /\ wf w n r /\ uval w r = uval w a - uval w b).
+Proof. exact U_sub_panics. Qed.
+Print Assumptions C04_U_sub.
+
+Theorem C04_I_add : forall dbg w n a b, 0 < w -> (0 < n)%nat -> wf w n a -> wf w n b ->
+  (I_add dbg w a b = Panic <-> dbg = true /\ inS (Mod w n) (sval w a + sval w b) = false) /\
+  (dbg = false -> I_add dbg w a b = Ret (I_wrapping_add w a b)) /\
+  (inS (Mod w n) (sval w a + sval w b) = true ->
+   exists r, I_add dbg w a b = Ret r /\ wf w n r /\ sval w r = sval w a + sval w b).
+Proof. exact I_add_panics. Qed.
+Print Assumptions C04_I_add.
+
+Theorem C04_I_sub : forall dbg w n a b, 0 < w -> (0 < n)%nat -> wf w n a -> wf w n b ->
+  (I_sub dbg w a b = Panic <-> dbg = true /\ inS (Mod w n) (sval w a - sval w b) = false) /\
+  (dbg = false -> I_sub dbg w a b = Ret (I_wrapping_sub w a b)) /\
+  (inS (Mod w n) (sval w a - sval w b) = true ->
+   exists r, I_sub dbg w a b = Ret r /\ wf w n r /\ sval w r = sval w a - sval w b).
+Proof. exact I_sub_panics. Qed.
+Print Assumptions C04_I_sub.
+
+(* unary minus and abs: MIN is the only unrepresentable case *)
+Theorem C04_I_neg : forall dbg w n a, 0 < w -> (0 < n)%nat -> wf w n a ->
+  (I_neg dbg w a = Panic <-> dbg = true /\ sval w a = - (Mod w n / 2)) /\
+  (dbg = false -> I_neg dbg w a = Ret (I_wrapping_neg w a)).
+Proof. exact I_neg_panics. Qed.
+Print Assumptions C04_I_neg.
+
+Theorem C04_I_abs : forall dbg w n a, 0 < w -> (0 < n)%nat -> wf w n a ->
+  (I_abs dbg w a = Panic <-> dbg = true /\ sval w a = - (Mod w n / 2)) /\
+  (dbg = false -> I_abs dbg w a = Ret (I_wrapping_abs w a)).
+Proof. exact I_abs_panics. Qed.
+Print Assumptions C04_I_abs.
+
+(* * : panics only in debug builds and only on overflow; otherwise the wrapped product *)
+Theorem C04_U_mul : forall dbg w n a b, 0 < w -> wf w n a -> wf w n b ->
+  match U_mul dbg w a b with
+  | Panic => dbg = true /\ Mod w n <= uval w a * uval w b
+  | Ret r => wf w n r /\ uval w r = (uval w a * uval w b) mod Mod w n /\
+             (dbg = true -> uval w a * uval w b < Mod w n /\ uval w r = uval w a * uval w b)
+  end.
+Proof. exact U_mul_ok. Qed.
+Print Assumptions C04_U_mul.
+
+Theorem C04_I_mul : forall dbg w n a b, 0 < w -> (0 < n)%nat -> wf w n a -> wf w n b ->
+  match I_mul dbg w a b with
+  | Panic => dbg = true /\
+             (sval w a * sval w b < - (Mod w n / 2) \/ Mod w n / 2 <= sval w a * sval w b)
+  | Ret r => wf w n r /\ sval w r = wrapS (Mod w n) (sval w a * sval w b) /\
+             (dbg = true -> - (Mod w n / 2) <= sval w a * sval w b < Mod w n / 2 /\
+                            sval w r = sval w a * sval w b)
+  end.
+Proof. exact I_mul_ok. Qed.
+Print Assumptions C04_I_mul.
+
+(* << and >> with ANY of the twelve primitive integer types as the amount: debug builds panic exactly
+   when the amount is negative or >= BITS (an amount above u32::MAX is >= BITS); release builds
+   convert with `as u32` and wrap *)
+Theorem C04_U_Shl_prim : forall dbg w n ty a v, 0 < w -> wf w n a -> bits w n < 2 ^ 32 -> amt_range ty v ->
+  (U_Shl_prim dbg w ty a v = Panic <-> dbg = true /\ (v < 0 \/ bits w n <= v)) /\
+  (dbg = false -> U_Shl_prim dbg w ty a v = Ret (U_wrapping_shl w a (v mod 2 ^ 32))) /\
+  (0 <= v < bits w n -> exists r, U_Shl_prim dbg w ty a v = Ret r /\ wf w n r /\
+                                  uval w r = (uval w a * 2 ^ v) mod Mod w n).
+Proof. exact U_Shl_prim_panics. Qed.
+Print Assumptions C04_U_Shl_prim.
+
+Theorem C04_U_Shr_prim : forall dbg w n ty a v, 0 < w -> wf w n a -> bits w n < 2 ^ 32 -> amt_range ty v ->
+  (U_Shr_prim dbg w ty a v = Panic <-> dbg = true /\ (v < 0 \/ bits w n <= v)) /\
+  (dbg = false -> U_Shr_prim dbg w ty a v = Ret (U_wrapping_shr w a (v mod 2 ^ 32))) /\
+  (0 <= v < bits w n -> exists r, U_Shr_prim dbg w ty a v = Ret r /\ wf w n r /\ uval w r = uval w a / 2 ^ v).
+Proof. exact U_Shr_prim_panics. Qed.
+Print Assumptions C04_U_Shr_prim.
+
+Theorem C04_I_Shl_prim : forall dbg w n ty a v, 0 < w -> wf w n a -> bits w n < 2 ^ 32 -> amt_range ty v ->
+  (I_Shl_prim dbg w ty a v = Panic <-> dbg = true /\ (v < 0 \/ bits w n <= v)) /\
+  (dbg = false -> I_Shl_prim dbg w ty a v = Ret (I_wrapping_shl w a (v mod 2 ^ 32))).
+Proof. exact I_Shl_prim_panics. Qed.
+Print Assumptions C04_I_Shl_prim.
+
+Theorem C04_I_Shr_prim : forall dbg w n ty a v, 0 < w -> wf w n a -> bits w n < 2 ^ 32 -> amt_range ty v ->
+  (I_Shr_prim dbg w ty a v = Panic <-> dbg = true /\ (v < 0 \/ bits w n <= v)) /\
+  (dbg = false -> I_Shr_prim dbg w ty a v = Ret (I_wrapping_shr w a (v mod 2 ^ 32))).
+Proof. exact I_Shr_prim_panics. Qed.
+Print Assumptions C04_I_Shr_prim.
+
+(* pow: debug builds panic exactly on overflow *)
+Theorem C04_U_pow : forall dbg w n a e, 0 < w -> (0 < n)%nat -> wf w n a -> 0 <= e ->
+  if dbg && (Mod w n <=? uval w a ^ e) then U_pow dbg w a e = Panic
+  else exists r, U_pow dbg w a e = Ret r /\ wf w n r /\ uval w r = (uval w a ^ e) mod Mod w n.
+Proof. exact (U_pow_ok mul_spec_holds). Qed.
+Print Assumptions C04_U_pow.
+
+Theorem C04_I_pow : forall dbg w n a e, 0 < w -> (0 < n)%nat -> wf w n a -> 0 <= e ->
+  if dbg && negb (inS (Mod w n) (sval w a ^ e)) then I_pow dbg w a e = Panic
+  else exists r, I_pow dbg w a e = Ret r /\ wf w n r /\ sval w r = wrapS (Mod w n) (sval w a ^ e).
+Proof. exact (I_pow_ok mul_spec_holds). Qed.
+Print Assumptions C04_I_pow.
+
+(* next_power_of_two: debug builds panic exactly when the next power does not fit; checked never panics *)
+Theorem C04_next_power_of_two : forall dbg w n a, 0 < w -> wf w n a ->
+  (next_pow2 (uval w a) < Mod w n ->
+     exists r, U_next_power_of_two dbg w a = Ret r /\ wf w n r /\ uval w r = next_pow2 (uval w a)) /\
+  (Mod w n <= next_pow2 (uval w a) ->
+     U_next_power_of_two dbg w a = if dbg then Panic else Ret (ZERO n)).
+Proof. exact U_next_power_of_two_ok. Qed.
+Print Assumptions C04_next_power_of_two.
+
+Theorem C04_checked_next_power_of_two_total : forall w n a, 0 < w -> wf w n a ->
+  (next_pow2 (uval w a) < Mod w n ->
+     exists r, U_checked_next_power_of_two w a = Ret (Some r) /\ wf w n r /\ uval w r = next_pow2 (uval w a)) /\
+  (Mod w n <= next_pow2 (uval w a) -> U_checked_next_power_of_two w a = Ret None).
+Proof. exact U_checked_next_power_of_two_ok. Qed.
+Print Assumptions C04_checked_next_power_of_two_total.
+
+(* strict_* panic in BOTH build modes exactly on overflow *)
+Theorem C04_strict_add_sub : forall w n a b, 0 < w -> wf w n a -> wf w n b ->
+  (U_strict_add w a b = Panic <-> Mod w n <= uval w a + uval w b) /\
+  (U_strict_sub w a b = Panic <-> uval w a < uval w b).
+Proof. exact strict_add_sub_panics. Qed.
+Print Assumptions C04_strict_add_sub.
+
+(* ilog2 panics exactly for a zero argument (both build modes); the general ilog / ilog10 statements are
+   C08_U_ilog / C08_U_ilog10 *)
+Theorem C04_ilog2 : forall w n a, 0 < w -> wf w n a ->
+  U_ilog2 w a = (if uval w a =? 0 then Panic else Ret (Z.log2 (uval w a))).
+Proof. exact U_ilog2_ok. Qed.
+Print Assumptions C04_ilog2.
+
+(* the checked_/wrapping_/overflowing_/saturating_ add, sub, mul, neg, abs, shl, shr, pow forms are
+   functions into option / pairs / digit lists in the model — they have no Panic value at all, which is the
+   model's rendering of "never panic"; that the Rust functions have the same outcomes (catch_unwind sees no
+   panic) is what the correspondence check establishes in both build modes *)
+Example C04_ex : U_add true 8 [255; 255; 255] [1; 0; 0] = Panic /\
+  U_add false 8 [255; 255; 255] [1; 0; 0] = Ret [0; 0; 0] /\
+  U_Shl_prim true 8 AI8 [1; 0; 0] (-1) = Panic /\ U_Shl_prim false 8 AI8 [1; 0; 0] (-1) = Ret [0; 0; 128].
+Proof. vm_compute. repeat split. Qed.
